@@ -373,7 +373,7 @@ run_ssrb_data(const shared_ptr<const ProjDataInfoCylindricalNoArcCorr>& in,
 
   // (round 4) class of the finding `ssrb:m-tolerance-below-float-precision-on-scanners-longer-than-1m`: SSRB(out, in) tests "same axial
   // position" as fabs(out_m - in_m) < 1E-4 mm on the float get_m() = axial_pos * sampling - offset; where these products reach 1024 mm a
-  // float ulp is 1.2E-4 mm and input sinograms find no output sinogram: their counts are silently dropped (repair: build/fixes/C15-4.diff).
+  // float ulp is 1.2E-4 mm and input sinograms find no output sinogram: their counts are silently dropped (repair: docs/fixes/C15-4.diff).
   // For geometries of that class the call is first made on the side: if it LOSES counts and does nothing else wrong (every bin it
   // fills holds what direct histogramming with the output geometry gives), the case is reported under the stable key and not compared
   // with the model (which is exact in m); otherwise -- in particular with the repair -- it goes through the comparison and the oracles below.
@@ -435,7 +435,7 @@ run_ssrb_data(const shared_ptr<const ProjDataInfoCylindricalNoArcCorr>& in,
                                "sinograms on scanners whose axial positions reach 1024 mm (axial_pos * axial_sampling): the test "
                                "fabs(out_m - in_m) < 1E-4 is below the precision of the float get_m() there; first case: scanner %s, %d rings, "
                                "ring spacing %g mm, in{%s} out{%s} kSeg=%d: %ld of %ld counts lost, every bin that is filled is right "
-                               "(repair: build/fixes/C15-4.diff)\n",
+                               "(repair: docs/fixes/C15-4.diff)\n",
                                sc.get_name().c_str(), R, sc.get_ring_spacing(), geom_str(*in).substr(0, 200).c_str(), geom_str(*outinfo).substr(0, 200).c_str(),
                                prm.kSeg, lost, lost + kept);
                 reported = true;
@@ -2478,7 +2478,7 @@ run_extend(vh::Rng& rng)
   // mirrored views), a tangential range that is not symmetric (the usual -n/2 .. n/2-1 of an even number of positions), a tangential
   // extension: the source mirrors within the EXTENDED tangential range, whose added positions are still empty at that point, and the added
   // views get zeros at the lowest tangential positions.  Probed with uniform data (independent of the random values): if zeros appear the
-  // case is reported under the stable key and not compared with the model (which states the documented behaviour; repair: build/fixes/C15-5).
+  // case is reported under the stable key and not compared with the model (which states the documented behaviour; repair: docs/fixes/C15-5).
   {
     const float sampling = dynamic_cast<ProjDataInfoCylindrical&>(*p).get_azimuthal_angle_sampling();
     const float range = (views - 1) * sampling;
@@ -2502,7 +2502,7 @@ run_extend(vh::Rng& rng)
                            "KNOWN-CANDIDATE extend:180-degrees-asymmetric-tangential-range-zeros-in-added-views extend_segment of data covering 180 "
                            "degrees with tangential positions %d..%d (not symmetric), view_extension %d, tangential_extension %d: segment filled with 1 "
                            "comes back with %ld entries that are not 1 (zeros in the added views at the lowest tangential positions): the mirroring of "
-                           "the added views reads the not yet filled tangential extension (repair: build/fixes/C15-5.diff)\n",
+                           "the added views reads the not yet filled tangential extension (repair: docs/fixes/C15-5.diff)\n",
                            seg.get_min_tangential_pos_num(), seg.get_max_tangential_pos_num(), ve, te, zeros);
             reported = true;
             return;
